@@ -359,3 +359,66 @@ def c19_4(I, shape):
                 detail=lambda: dict(suite=hex(suite)))
     I.check(seq_eq(list(c.session.masterSecret),
                    list(s.session.masterSecret)), "master-secret-agreed")
+
+
+def _shapes_c19_5(tier):
+    out = []
+    for grp in (("ffdhe2048", "ffdhe3072") if tier == "quick"
+                else ("ffdhe2048", "ffdhe3072", "ffdhe4096")):
+        for share in ("none", "ec-only"):
+            out.append(dict(group=grp, client_shares=share))
+    out.append(dict(group="secp384r1", client_shares="ec-only"))
+    return out
+
+
+@obligation("C19.5", _shapes_c19_5,
+            functions=["tlslite.handshakesettings:HandshakeSettings.validate",
+                       "tlslite.tlsconnection:TLSConnection."
+                       "_clientSendClientHello",
+                       "tlslite.tlsconnection:TLSConnection."
+                       "_clientGetServerHello",
+                       "tlslite.tlsconnection:TLSConnection."
+                       "_serverGetClientHello"],
+            assumes=P.PAIR_ASSUMES + [
+                "TLS 1.3 only on both sides; the server allows exactly one "
+                "group (an FFDHE group, or secp384r1), the client allows "
+                "that group among its defaults but sends no key share for it "
+                "(no shares at all, or x25519 only): the server must answer "
+                "with a HelloRetryRequest and the retried handshake must "
+                "complete"],
+            patches=_pair12_patches, max_paths=64, timeout=(600, 1800))
+def c19_5(I, shape):
+    """compatible settings connect through a HelloRetryRequest too: the only
+    common group is one the client offered no share for"""
+    from tlslite.handshakesettings import HandshakeSettings
+    grp = shape["group"]
+    cset, sset = HandshakeSettings(), HandshakeSettings()
+    for s in (cset, sset):
+        s.minVersion = s.maxVersion = (3, 4)
+        s.ticket_count = 0
+    cset.keyShares = [] if shape["client_shares"] == "none" else ["x25519"]
+    if grp.startswith("ffdhe"):
+        sset.eccCurves = []
+        sset.dhGroups = [grp]
+    else:
+        sset.eccCurves = [grp]
+        sset.dhGroups = []
+    sset.keyShares = []
+    cset, sset = cset.validate(), sset.validate()
+    sc = P.Scenario(I, PAIR_RND12, cset, sset, server_cred="rsa")
+    sc.run()
+    for ep, nm in ((sc.cep, "client"), (sc.sep, "server")):
+        I.check(ep.crash is None, "no-raw-exception-from-the-handshake",
+                detail=lambda ep=ep, nm=nm: dict(side=nm, tb=ep.crash))
+    I.check(sc.both_completed(), "compatible-settings-connect-after-hrr",
+            detail=lambda: dict(c=repr(sc.cep.error), s=repr(sc.sep.error)))
+    if not sc.both_completed():
+        return
+    recs = P.wire_records(sc.wire)
+    nch = sum(1 for who, ct, ver, p in recs
+              if who == "c" and ct == ContentType.handshake and
+              len(p) and int(p[0]) == 1)
+    I.check(nch == 2, "a-hello-retry-request-was-needed")
+    I.check(sc.c.version == (3, 4) and sc.s.version == (3, 4) and
+            sc.c.session.cipherSuite == sc.s.session.cipherSuite,
+            "version-and-suite-agree")
